@@ -37,6 +37,9 @@ type c07Step struct {
 	// own so that what it must get does not depend on this request: "author" (an acceptable
 	// authorization request), "bad-header" or "even-seq" (requests the server rejects)
 	Tail string `json:"tail,omitempty"`
+	// Slow: the harness' clock moves on before the reply is written (a slow authenticator, a request
+	// that arrived late): a write deadline armed earlier, if any, has passed by then
+	Slow bool `json:"slow,omitempty"`
 }
 
 type c07Case struct {
@@ -207,6 +210,7 @@ func genC07(t *rapid.T) c07Case {
 		if len(s.Body) > 65536 {
 			s.Body = s.Body[:65536]
 		}
+		s.Slow = rapid.IntRange(0, 7).Draw(t, "slow_handler") == 0
 		if rapid.IntRange(0, 5).Draw(t, "pipelined") == 0 {
 			s.Tail = rapid.SampledFrom([]string{"author", "bad-header", "even-seq"}).Draw(t, "tail")
 		}
@@ -331,6 +335,10 @@ func runC07(t failer, c c07Case) (paths []string) {
 			wire = append(append([]byte{}, wire...), model.Frame(key, th, tb)...)
 		}
 		env.rec.Reset()
+		d.c.LateWrites(s.Slow)
+		if s.Slow {
+			ev.Class("reply-written-late")
+		}
 		pkts, rest, nowClosed, err := d.send(wire)
 		if err != nil {
 			t.Fatalf("%v", err)
